@@ -422,6 +422,9 @@ class Harness:
         self.reported = set()
         self.in_kstep = False
         self.early = False
+        self.polls = False
+        self.in_poll = False
+        self.polled_once = False
         self.store = ad.build(self)
         self.drain()
 
@@ -479,12 +482,48 @@ class Harness:
         return self.P[0]
 
     # -- observation after every call / kernel step ---------------------------
-    def observe(self, quiescent=False):
+    def poll(self):
+        """what a polling user does between any two calls: ask the edge whether it could take / give an item (answers ignored here, C11 checks them)"""
+        e = self.store
+        self.as_proc(self.P[0])
+        for f in ("can_put", "can_get"):
+            try:
+                getattr(e, f)()
+            except symx.PathStop:
+                raise
+            except Exception as ex:
+                self.fail(f"CRASH:{f}-raised-{type(ex).__name__}", {"msg": str(ex)[:120]})
+        self.ctx.hit("poll")
+
+    def observe(self, quiescent=False, kernel=False):
         ctx = self.ctx
         if self.ad.settle_urgent and not self.in_kstep:
             q = self.env._queue
             while q and q[0][1] == 0 and q[0][0] <= self.env.now:
                 self.kstep()
+        if self.polls == "one" and not kernel and not self.in_kstep and not self.in_poll and not self.polled_once:
+            # a single poll at a call boundary chosen by the explorer
+            if ctx.choice(2, "poll-here?"):
+                self.polled_once = True
+                self.in_poll = True
+                try:
+                    self.poll()
+                    if self.ad.settle_urgent:
+                        q = self.env._queue
+                        while q and q[0][1] == 0 and q[0][0] <= self.env.now:
+                            self.kstep()
+                finally:
+                    self.in_poll = False
+        if self.polls is True and not kernel and not self.in_kstep and not self.in_poll:
+            self.in_poll = True
+            try:
+                self.poll()
+                if self.ad.settle_urgent:
+                    q = self.env._queue
+                    while q and q[0][1] == 0 and q[0][0] <= self.env.now:
+                        self.kstep()
+            finally:
+                self.in_poll = False
         # availability ranks by white-box observation of ready_items
         if self.ad.avail == "whitebox" or self.ad.avail == "ghost_delay":
             ready = self.ad.ready_objs(self)
@@ -741,7 +780,7 @@ class Harness:
             self.fail(f"CRASH:kernel-step-raised-{type(e).__name__}", {"msg": msg[:160]})
         finally:
             self.in_kstep = False
-        self.observe()
+        self.observe(kernel=True)
 
     def drain(self):
         """process every event scheduled for the current instant"""
@@ -861,6 +900,15 @@ def _prefix_retrieval(h, N, with_transit=True, with_space=False, R2=2, USE=True,
         while any(g.inside and g.avail_rank is None for g in h.items) and k < 6:
             h.advance(ctx.real("gap", 1, 1))
             k += 1
+    if with_transit and isinstance(ad, A_Fleet):
+        # items loaded after the delivered ones; a symbolic gap later they are still waiting, on the trip, or delivered too
+        n_loaded = ctx.choice(TRN + 1, "n_loaded")
+        for i in range(n_loaded):
+            t = h.do_reserve_put()
+            ctx.assume(t.state == "granted")
+            h.do_put(t)
+        if n_loaded:
+            h.advance()
     n_transit = 0
     if with_transit and ad.timed and ad.avail == "ghost_delay":
         n_transit = ctx.choice(TRN + 1, "n_transit")
@@ -997,7 +1045,7 @@ def _prefix_arrivals(h, N):
 
 
 def scenario(store, family, N=3, K=2, oracles=("C01", "C02", "C04", "C05", "C06"), cap_max=None, cap_fixed=None,
-             sym_prio=False, R2=2, USE=True, TR=True, twin=False, RMAX=9, S=2, EARLY=False, DRAIN=True, PROCS=1):
+             sym_prio=False, R2=2, USE=True, TR=True, twin=False, RMAX=9, S=2, EARLY=False, DRAIN=True, PROCS=1, POLL=False):
     """returns fn(ctx) exploring prefix(family, N) followed by K free calls on the given store."""
     def fn(ctx):
         ad = adapter(store)
@@ -1009,6 +1057,10 @@ def scenario(store, family, N=3, K=2, oracles=("C01", "C02", "C04", "C05", "C06"
         h = Harness(ctx, ad, oracles, cap_max=cm, cap_fixed=cap_fixed, two_procs=two,
                     sym_prio=sym_prio or family.startswith("prio"))
         h.early = EARLY
+        # POLL: can_put()/can_get() of the edge are called between any two calls of the history (they must be free of side effects)
+        h.polls = (POLL if POLL == "one" else bool(POLL)) if getattr(ad, "edge", False) else False
+        if h.polls:
+            h.observe()
         if family == "retrieval":
             _prefix_retrieval(h, N, with_transit=TR, R2=R2, USE=USE, RMAX=RMAX, S=S)
         elif family == "both":
